@@ -16,7 +16,7 @@ import (
 )
 
 func isCustom(t reflect.Type) bool {
-	return t == ptypes.TMsg || t == ptypes.TGogo || t == ptypes.TRaw
+	return ptypes.IsCustom(t)
 }
 
 // maxElem: the largest element size reachable from t (what one repeated element or map entry can cost).
@@ -266,7 +266,7 @@ func runRandom(c *core.Case) {
 // custom types): no struct decoder has validated the window before the type's own decoder runs.
 var bareTargets = []reflect.Type{
 	reflect.TypeOf([]byte(nil)), reflect.TypeOf(""), reflect.TypeOf([4]byte{}), reflect.TypeOf([16]byte{}), reflect.TypeOf(int64(0)), reflect.TypeOf(uint32(0)), reflect.TypeOf(false),
-	reflect.TypeOf(float64(0)), reflect.TypeOf(float32(0)), ptypes.TMsg, ptypes.TGogo, ptypes.TRaw, reflect.TypeOf(int32(0)), reflect.TypeOf(uint64(0)), reflect.TypeOf(int(0)),
+	reflect.TypeOf(float64(0)), reflect.TypeOf(float32(0)), ptypes.TMsg, ptypes.TGogo, ptypes.TGogoV, ptypes.TRaw, reflect.TypeOf(int32(0)), reflect.TypeOf(uint64(0)), reflect.TypeOf(int(0)),
 }
 
 func runBare(c *core.Case) {
